@@ -78,3 +78,46 @@ func VH_C16_chunks(src int) {
 		}
 	}
 }
+
+// ---------------------------------------------------------------- layout equivalence
+//
+// "Wherever the grammar allows a line break, replacing it by any number of blank lines,
+// comment lines and surrounding spaces or tabs yields the same program": every template
+// marks the places where it is written with a line break (␤); each place gets a
+// solver-chosen layout run; the AST must print like the one with plain line breaks.
+// Real lexer (token table, regular expressions) and real parser.
+
+var vLayoutTemplates = []string{
+	"[1,␤2,␤3]", "{a: 1,␤b: 2}", "%{1: 2,␤3: 4}", "f(1,␤2)", "a := 1␤b := 2␤[a, b]",
+	"[1, 2, 3]␤|@{|x| x * 2}␤|.sum", "{|x|␤x + 1␤}", "[␤1␤]", "<{|n|␤yield n if n < 2␤recur(n + 1)␤}>",
+	"o␤|.a␤|&.b␤|~@c", "m{|x|␤x␤}", "{␤a: 1␤}", "f(␤1␤)", "x := [1,␤2]␤x␤|.sum", "%{␤1: 2␤}", "a␤", "␤a",
+	"o␤|=.a␤|$(0)+␤|=@b", "[1]␤|~.a␤|&@b␤|~$(1)*",
+}
+
+var vLayouts = []string{"\n", "\n\n", "\n  \n", "\n# c\n", "\n  # c\n", "\n\t\n", " \n", "\n \t# c \n\n", "\n    ", "\n#\n", "\t\n\t# é\n\t", "\n\n\n  \n\n"}
+
+func vParseText(src string) (string, bool) {
+	n, err := Parse(NewReader(strings.NewReader(src), "h"))
+	if err != nil || n == nil {
+		return "", false
+	}
+	return n.String(), true
+}
+
+func VH_C16_layout(t int) {
+	tp := vLayoutTemplates[t]
+	parts := strings.Split(tp, "␤")
+	base, ok := vParseText(strings.Join(parts, "\n"))
+	rt.Assert(ok, "the template must parse with plain line breaks")
+	text := ""
+	for i, p := range parts {
+		if i > 0 {
+			text += vLayouts[rt.Choice(len(vLayouts))]
+		}
+		text += p
+	}
+	rt.Note(text)
+	got, ok := vParseText(text)
+	rt.Assert(ok, "a line break replaced by blank lines, comment lines and blanks must still parse")
+	rt.Assert(got == base, "a line break replaced by blank lines, comment lines and blanks yields the same program")
+}
